@@ -20,6 +20,7 @@ func checkC07(p *Prog, r *Report) {
 	r.rule("R8b prefix pruning: strings.HasPrefix between two items of a list whose items are later split on a delimiter must test the shorter item followed by that delimiter")
 	r.rule("R4 error discipline and (value, nil) / (nothing, error) returns for NewURLFromRaw, NewURL, NewParams")
 	r.rule("C07.member-append: in NewParams every string appended to a result list is a constant, or is guarded by an equality with \"id\", with an attribute name of the schema type, or with an element of Type.Fields(), or comes from a list built that way")
+	r.rule("C07.include-chain: wherever the type for the next word of an inclusion path is looked up from <rel>.ToType, the same loop stores into <rel> the relationship found in the current type's Rels map, on a path back to that lookup (the walk advances along the chain of relationships)")
 	r.rule("C07.id-total: the list stored in Params.SortingRules contains \"id\" on every path (an append of the constant, or a flag that is only set where a rule equal to \"id\" was appended)")
 	r.rule("C07.type-exists: NewURL returns a URL only behind a test that the first path fragment names a schema type; every key written to Params.Fields is the resource type, a schema relationship's target type, or a name tested with GetType")
 	r.assume("SimpleURL values passed to NewURL/NewParams come from NewSimpleURL (the property quantifies over raw URL strings); the element invariant on SimpleURL.SortingRules is established by a package-wide who-writes check")
@@ -65,6 +66,7 @@ func checkC07(p *Prog, r *Report) {
 		}
 	}
 
+	checkIncludeChain(p, r, np)
 	checkMemberAppends(p, r, np)
 	checkIDTotal(p, r, np)
 	checkURLTypeExists(p, r)
@@ -661,4 +663,82 @@ func isRangeKeyOfField(v ssa.Value, owner, field string) bool {
 	}
 	o, fl := fieldRef(fa.X, fa.Field)
 	return o == owner && fl == field && !strings.Contains(o, " ")
+}
+
+// checkIncludeChain implements C07.include-chain.
+func checkIncludeChain(p *Prog, r *Report, f *ssa.Function) {
+	isGetType := func(v ssa.Value) *ssa.Call {
+		c, _ := callOf(v)
+		if c == nil {
+			return nil
+		}
+		if sc := c.Common().StaticCallee(); sc != nil && funcName(sc) == "(*Schema).GetType" {
+			return c
+		}
+		return nil
+	}
+	// lookupOfRels: v is m[k] (or its value component) where m is the Rels map of a Type obtained from GetType
+	lookupOfRels := func(v ssa.Value) bool {
+		if ex, ok := v.(*ssa.Extract); ok && ex.Index == 0 {
+			v = ex.Tuple
+		}
+		lk, ok := v.(*ssa.Lookup)
+		if !ok {
+			return false
+		}
+		base, fld, ok := fieldLoad(lk.X)
+		if !ok || fld != "Rels" {
+			return false
+		}
+		if isGetType(base) != nil {
+			return true
+		}
+		if al, ok := base.(*ssa.Alloc); ok {
+			for _, ref := range referrers(al) {
+				if st, ok := ref.(*ssa.Store); ok && st.Addr == ssa.Value(al) && isGetType(st.Val) != nil {
+					return true
+				}
+			}
+		}
+		return false
+	}
+	n := 0
+	eachInstr(f, func(ins ssa.Instruction) {
+		c, ok := ins.(*ssa.Call)
+		if !ok {
+			return
+		}
+		sc := c.Common().StaticCallee()
+		if sc == nil || funcName(sc) != "(*Schema).GetType" {
+			return
+		}
+		arg := c.Common().Args[1]
+		base, fld, ok := fieldLoad(arg)
+		if !ok || fld != "ToType" {
+			return
+		}
+		v, ok := base.(*ssa.Alloc)
+		if !ok || structName(v.Type()) != "Rel" {
+			return
+		}
+		// only lookups inside loops matter (a chain walk)
+		if !blockReaches(c.Block(), c.Block(), false) {
+			return
+		}
+		n++
+		good := false
+		for _, ref := range referrers(v) {
+			st, ok := ref.(*ssa.Store)
+			if !ok || st.Addr != ssa.Value(v) || !lookupOfRels(st.Val) {
+				continue
+			}
+			if blockReaches(st.Block(), c.Block(), true) && blockReaches(c.Block(), st.Block(), true) {
+				good = true
+			}
+		}
+		r.decide(good, "C07.include-chain", "NewParams:"+p.describe(c), p.pos(c.Pos()),
+			"the relationship variable is advanced with the relationship found in the current type before the next lookup",
+			"the type for the next word of an inclusion path is taken from a relationship variable that the loop never updates with the relationship it just found: every word is resolved against the same type, so valid nested paths are rejected and invalid ones accepted")
+	})
+	r.floor("chain lookups GetType(rel.ToType) in loops", n, 2)
 }
